@@ -563,7 +563,8 @@ func addStream(t *target, r *hlib.Rng, p *prims, lens []int) error {
 			return "accepted:" + canon(got)
 		})
 	}
-	return nil
+	// error-path + retry histories, then interleaved fresh streams (streamfault.go)
+	return addStreamFaults(t, r, p, 6000)
 }
 
 // ---------------------------------------------------------------- JWT
